@@ -22,8 +22,8 @@ RULE = (
     "the tokenizer must be the expression token's text, every inner token must slice in the TEMPLATE source, and the "
     "recorded inner tokens are compared with the Lean line scanner run on (token text, token start). errctx: texts over every str.splitlines boundary, every index 0..len+1 through _error_context and "
     "Span.line_col. lexspans: piece-level templates assembled with default and custom delimiters through the real "
-    "lexer, token start offsets compared with the model. charclass: every code point below U+0100 (re classes) and "
-    "below U+3000 (line boundaries). spans (no model): generated multi-line programs with liquid tags, nested paths, "
+    "lexer, token start offsets compared with the model. charclass: every code point (surrogates excluded): \\d \\w \\s, the SKIP class and the splitlines "
+    "boundaries. spans (no model): generated multi-line programs with liquid tags, nested paths, "
     "filters and partials, with LF / CRLF / mixed line endings and lone CRs, through BoundTemplate.analyze, "
     "analyze_async, Environment.analyze_tags_from_string, analyze_tags and analyze_tags_async (the last two through a "
     "loader); every reported Span is sliced in the NAMED template's source. errors: malformed sources (also malformed partials reached at render time): str(err) "
@@ -37,24 +37,26 @@ TRUSTED_BASE = [
     "hand-written scanners LiquidVerif/Model/ExprLex.lean (the _RE alternation of _tokenize.py, rule order preserved), Model/LiquidLines.lean (liquid-tag line rules), Model/LexDelims.lean (piece-level template lexer with group offsets), Model/ErrCtx.lean (splitlines / _error_context / Span.line_col)",
     "tools/emitters/c20_rules.py: dumps _rules, _keywords, operators and the liquid-tag rule patterns of the tree under test into Gen/C20Tables.lean; `rules_pinned` re-decides on every run that they are the ones the scanners were written against",
     "correspondence harness harness/props/c20.py + Driver/C20.lean, Driver/C11.lean (`lex`)",
-    "Python `re` semantics (backtracking order, `\\b`, `$`, DOTALL) and str.splitlines / str.isspace — modelled, validated match by match by the streams; character classes exact below U+0100 only",
+    "Python `re` semantics (backtracking order, `\\b`, `$`, DOTALL) and str.splitlines / str.isspace — modelled, validated match by match by the streams; character classes above U+00FF come from the interpreter's Unicode database via tools/emitters/c20_unicode.py",
     "the parsers and static analysis hand the lexer's token.start_index through unchanged: that is observed (stream spans), not modelled",
 ]
 MANIFEST = {
     "technique": "Lean 4 proof (hand scanners that consume characters + induction that arithmetic offsets equal consumed lengths; totality of the error-context search) + differential correspondence match by match + direct slicing oracle on generated programs and malformed sources",
-    "text": "token_span_correct / scan_tiles: for every expression string and every base offset each token's start index, computed by arithmetic as in tokenize(), is where the token's text sits in the source; same for the liquid-tag line scanner (liquid_tag_offsets) and, at piece level, for tag names / expressions / output statements of the template lexer under any delimiters (template_span_correct). error_context_total: for every text and 0 <= i < len the search returns the line containing i with the right column, and splitlines pieces concatenate to the text; detailed_message_total: a token with an index inside its source always formats. The full 'every error has a position' sentence is refuted (eof_no_position_counterexample) and listed as a known finding.",
-    "note": "Trusted: Lean kernel, the hand scanners (validated match by match against `re`), emitter for the rule tables, harness. Parser and analysis code that carries start_index from tokens to Spans is covered by the direct oracle only. Character classes exact below U+0100.",
+    "text": "token_span_correct / scan_tiles: for every expression string and every base offset each token's start index, computed by arithmetic as in tokenize(), is where the token's text sits in the source; same for the liquid-tag line scanner (liquid_tag_offsets) and, at piece level, for tag names / expressions / output statements of the template lexer under any delimiters (template_span_correct), and for the block-comment token, whose value is the source text at its start index (comment_token_span_correct). error_context_total: for every text and 0 <= i < len the search returns the line containing i with the right column, and splitlines pieces concatenate to the text; detailed_message_total: a token with an index inside its source always formats. negative_index_formats_bare: a token with index -1 (the old shared EOF sentinel) formats without position - fixed in the tree, stream errors now finds every parse error located.",
+    "note": "Trusted: Lean kernel, the hand scanners (validated match by match against `re`), emitter for the rule tables, harness. Parser and analysis code that carries start_index from tokens to Spans is covered by the direct oracle only. Character classes above U+00FF are a generated table of the interpreter's Unicode database, compared with `re` on every code point.",
 }
 ASSUMPTIONS = [
-    "generated text stays below U+0100 (plus U+2028/U+2029 for line boundaries); the model classifies higher code points as 'other'",
+    "character classes above U+00FF are those of the interpreter's Unicode database (table regenerated every run, compared with `re` on every code point)",
     "spans of variables whose root is written in brackets (['a'], [x]) point at the opening bracket; the oracle accepts the bracket form of the reported root",
-    "errors raised on the shared EOF sentinel token (index -1) have no position: known finding position|eof-token",
+    "errors raised at the end of a token stream used to carry index -1 (finding position|eof-token, fixed in the tree); the oracle still names that signature should it come back",
 ]
 
-ALPH = list("abxyn_019 \t\n.,:|()[]'\"-<>=!?#$&%{}/\\") + ["\xe9", "\xb2", "\xa0", "\x85", "\r", "\x0c"]
+ALPH = list("abxyn_019 \t\n.,:|()[]'\"-<>=!?#$&%{}/\\") + ["\xe9", "\xb2", "\xa0", "\x85", "\r", "\x0c", "\u03bb", "\u540d", "\u0661", "\u2003", "\u2028", "\U0001d7d8", "\u0301", "\u20ac"]
 FRAGS = ["..", ".", "(", ")", "[", "]", "'", '"', "-", "1", "12", "3.", ".5", "1.5", "a", "a-b", "x?", "||", "|", "<", ">", "=", "!", "<>",
          "=<", " ", "\n", "\t", ",", ":", "é", "²", "$", "#", "&", "[0]", "[ -1 ]", "[ 'k' ]", "['a\"]", '["b"]', "(1..3)",
          "('a'..b)", "(x)", "and", "or", "not", "contains", "true", "nil", "12a", "-3", "-3.", "1..2", "a.b", "a[b]", "\r", " "]
+
+FRAGS += ["\u03bb\u03bc", "x\u0661", "\u0661\u0662", "\u0661.\u0665", "\u2003", "\u540d\u524d", "e\u0301", "\u20ac", "\U0001d7d8", "[\u2003'k'\u2003]", "-\u0663"]
 
 
 def gen_expr(rng):
@@ -102,7 +104,7 @@ class ExprLexStream(Stream):
         fixed = ["", "a", "a.b.c", "(1..3)", "('(..' .. x)", "(a)", "((1..2))", "[0]", "[ 'a' ]x", "['a'b']", "'x", "1.", "1..2", "-1.5.",
                  "12abc", "a-b?", "<>=!", "=>", "a||b", "a | f: 'x', y", "x² 1²", "(')..' .. 1)", "(\"..", "(1.\n.2)", "-", "- 1", "a\r\nb"]
         out = [{"base": 0, "src": s} for s in fixed]
-        for _ in range(ctx.scale(2500, 15000)):
+        for _ in range(ctx.scale(2500, 60000)):
             out.append({"base": rng.choice([0, 0, 3, 17, 250]), "src": gen_expr(rng)})
         return out
 
@@ -174,7 +176,7 @@ def gen_liquid_body(rng, marker_text):
         elif k == 7:
             body = ""
         elif k == 8:
-            body = rng.choice(["?", "- x", "| y", "'s'", "écho 1", "x² y", "_t 1", "9 lives"])
+            body = rng.choice(["?", "- x", "| y", "'s'", "écho 1", "x² y", "_t 1", "9 lives", "\u03bbx 1", "echo \u540d | f", "\u0661 2", "\u2003echo 1", "echo\u2003x"])
         elif k == 9:
             body = "echo" + rng.choice(["", "  ", "\t"]) + rng.choice(["1", "'a b'  ", "x | upcase"])
         else:
@@ -194,7 +196,7 @@ class LiquidLinesStream(Stream):
         for cs in MARKERS:
             for s in ["", "echo 1", "echo 1\n", "  \n", "\n\necho 1", "echo 1 \r\n\r\nif x\r\n", "# c\necho 2", "echo  'a  b'  \t", "aé 1", "\r", " \r\n x"]:
                 out.append({"cs": cs, "base": 0, "src": s})
-        for _ in range(ctx.scale(1200, 8000)):
+        for _ in range(ctx.scale(1200, 30000)):
             cs = rng.choice(MARKERS)
             mk = cs.replace("{", "") or "#"
             out.append({"cs": cs, "base": rng.choice([0, 10, 99]), "src": gen_liquid_body(rng, mk)})
@@ -252,7 +254,7 @@ class LiquidParseStream(Stream):
         for cs in ("", "{#", "{//"):
             for body in ("echo 1\r\necho 2", "if x\r\n  echo 'a'\r\nendif\r\n", "assign a = 1\n\r\necho a\r", "echo 1\recho 2", "echo 1 \r\n\r\n echo b | upcase\n"):
                 out.append({"cs": cs, "pre": "x\r\n", "open": "{% liquid ", "body": body, "close": "%}", "post": "\ny"})
-        for _ in range(ctx.scale(500, 5000)):
+        for _ in range(ctx.scale(500, 20000)):
             cs = rng.choice(["", "", "{#", "{//"])
             mk = cs.replace("{", "") or "#"
             body = gen_liquid_body(rng, mk)
@@ -348,7 +350,7 @@ def _lines_env(cs):
 
 
 BREAKS = ["\n", "\r\n", "\r", "\x0b", "\x0c", "\x1c", "\x1d", "\x1e", "\x85", "\u2028", "\u2029", "\n\n", "\n\r", "\r\r\n"]
-LINE_FRAGS = ["", "a", "ab c", "  x", "x  ", "\t", "{% if x %}", "{{ y }}", "éé", "  ", "\x1f", "0123456789"]
+LINE_FRAGS = ["\u2003", "\u540d\u3000", "\U0001d7d8 ", "", "a", "ab c", "  x", "x  ", "\t", "{% if x %}", "{{ y }}", "éé", "  ", "\x1f", "0123456789"]
 _BREAK_RE = re.compile("\r\n|[\n\r\x0b\x0c\x1c\x1d\x1e\x85\u2028\u2029]")
 
 
@@ -370,7 +372,7 @@ class ErrCtxStream(Stream):
     def cases(self, ctx):
         rng = ctx.rng_for("errctx")
         out = [{"text": t} for t in ["", "a", "\n", "a\n", "a\nb", "\r\n", "a\r\nb\r\n", "\n\n\n", "a\rb", "x\x0by", " "]]
-        for _ in range(ctx.scale(250, 2500)):
+        for _ in range(ctx.scale(250, 8000)):
             t = ""
             for _ in range(rng.range(0, 6)):
                 t += rng.choice(LINE_FRAGS) + (rng.choice(BREAKS) if rng.chance(75) else "")
@@ -428,33 +430,31 @@ class ErrCtxStream(Stream):
 
 
 class CharClassStream(Stream):
+    """Every code point (surrogates excluded): the model's classifiers against `re` / `str.splitlines`."""
+
     name = "charclass"
     exhaustive = True
+    BLOCK = 2048
 
     def cases(self, ctx):
-        return [{"from": a, "to": min(a + 64, 0x3000)} for a in range(0, 0x3000, 64)]
+        out = []
+        for a in range(0, 0x110000, self.BLOCK):
+            if 0xD800 <= a < 0xE000:
+                continue
+            out.append({"from": a, "to": a + self.BLOCK})
+        return out
 
     def impl(self, case):
-        out = []
-        for cp in range(case["from"], case["to"]):
-            ch = chr(cp)
-            brk = len(("a" + ch + "b").splitlines()) == 2
-            if cp < 0x100:
-                out.append([bool(re.fullmatch(r"\d", ch)), bool(re.fullmatch(r"\w", ch)), bool(re.fullmatch(r"\s", ch)), bool(re.fullmatch(r"[ \n\t\r]", ch)), brk])
-            else:
-                out.append([brk])
-        return out
+        cps = range(case["from"], case["to"])
+        text = "".join(chr(cp) for cp in cps)
+        sets = [set(re.findall(pat, text)) for pat in (r"\d", r"\w", r"\s", r"[ \n\t\r]")]
+        return [[chr(cp) in sets[0], chr(cp) in sets[1], chr(cp) in sets[2], chr(cp) in sets[3], len(("a" + chr(cp) + "b").splitlines()) == 2] for cp in cps]
 
     def line(self, case):
         return ["charclass", list(range(case["from"], case["to"]))]
 
-    def canon_model(self, case, mobs):
-        if not isinstance(mobs, list):
-            return mobs
-        return [m if case["from"] + i < 0x100 else [m[4]] for i, m in enumerate(mobs)]
-
     def nontrivial(self, case, obs):
-        return case["from"] < 0x100
+        return any(any(r) for r in obs)
 
 
 # ---- piece-level template lexer offsets ------------------------------------------------------------
@@ -465,7 +465,7 @@ def gen_pieces(rng, comments=False, liquid_comments=False):
     g = Gen(rng, flags=gen_flags(rng))
     ws = lambda: rng.choice(["", " ", " ", "  ", "\n", "\t ", "\r\n  "])
     ws1 = lambda: rng.choice([" ", " ", "  ", "\n", "\t"])
-    texts = ["x", "text ", " ", "\n", "  a b\n  c ", "Hello, ", "<b>", "é ", "- ", "  ", "\n\n", "a\n", "} {", "% x", "end\n"]
+    texts = ["x", "text ", " ", "\n", "  a b\n  c ", "Hello, ", "<b>", "é ", "- ", "  ", "\n\n", "a\n", "} {", "% x", "end\n", "\u2003 wide \u2003", "\u540d\u524d\u3000", "\u03bb\u2028"]
     out = []
     depth = 0
     for _ in range(rng.range(1, 9)):
@@ -513,7 +513,7 @@ class LexSpansStream(Stream):
     def cases(self, ctx):
         rng = ctx.rng_for("lexspans")
         out = []
-        for _ in range(ctx.scale(1000, 8000)):
+        for _ in range(ctx.scale(1000, 30000)):
             comments = rng.chance(40)
             ps = gen_pieces(rng, comments)
             if not ps:
@@ -624,7 +624,7 @@ class SpansStream(Stream):
 
     def cases(self, ctx):
         rng = ctx.rng_for("spans")
-        return [{"prog": gen_multiline_program(rng)} for _ in range(ctx.scale(250, 2000))]
+        return [{"prog": gen_multiline_program(rng)} for _ in range(ctx.scale(250, 6000))]
 
     def impl(self, case):
         from liquid.exceptions import LiquidError
@@ -742,7 +742,7 @@ class ErrorsStream(Stream):
 
     def cases(self, ctx):
         rng = ctx.rng_for("errors")
-        return [{"prog": gen_malformed(rng)} for _ in range(ctx.scale(500, 5000))]
+        return [{"prog": gen_malformed(rng)} for _ in range(ctx.scale(500, 20000))]
 
     def impl(self, case):
         import warnings
